@@ -280,6 +280,14 @@ func cmdCheck(args []string) int {
 				nVac++
 				if ok {
 					nVacOK++
+				} else if r.Status == "unsat" && o.Optional {
+					ok = true
+					nVacOK++
+					rec.Note = "unreachable call site"
+				} else if r.Status == "unsat" && o.PairPre != nil && (byOb[o.PairPre] == nil || byOb[o.PairPre].Status != "sat") {
+					ok = true
+					nVacOK++
+					rec.Note = "call site not shown reachable before the call either"
 				} else if r.Status == "unsat" {
 					// contradictory precondition / unreachable body: the proof would be vacuous
 					p := writeReplayFile(pid, o.Name, map[string]any{"obligation": o.Name, "reason": "vacuity probe refuted: " + o.Desc, "solver": r.Tried})
